@@ -619,7 +619,7 @@ def check_bij(case, ctx):
 
 SUBS = [
     Sub("base58check", check_b58, strategy=b58_strategy,
-        budget={"quick": 30000, "thorough": 900000},
+        budget={"quick": 24000, "thorough": 900000},
         required=["mut:" + m for m in B58_MUT] + ["ref_accepts", "ref_rejects", "payload_empty",
                                                  "leading_zero_bytes", "leading_zero_run>=2",
                                                  "payload_all_zero", "payload>=78"],
@@ -637,7 +637,7 @@ SUBS = [
         + ["len=2", "len=20", "len=32", "len=40", "cross_constant_rejected"],
         nontrivial_rule="program length not a multiple of 5 (padding bits) or version >= 1"),
     Sub("segwit_random", check_segwit, strategy=segwit_strategy,
-        budget={"quick": 20000, "thorough": 600000},
+        budget={"quick": 16000, "thorough": 600000},
         required=[f"v{v}" for v in range(17)] + ["len=2", "len=40", "needs_padding_bits"],
         nontrivial_rule="program length not a multiple of 5 (padding bits) or version >= 1"),
     Sub("substitution_detection", check_subst, strategy=subst_strategy,
@@ -647,7 +647,7 @@ SUBS = [
         nontrivial_rule="every case: one address with all 31*len single substitutions and the "
                         "sampled doubles"),
     Sub("script_address_bijection", check_bij, strategy=bij_strategy,
-        budget={"quick": 12000, "thorough": 360000},
+        budget={"quick": 10000, "thorough": 360000},
         required=[f"{t}/{n}" for t in TEMPLATES for n in NETWORKS]
         + ["to_address_ok", "to_address_regtest_segwit_raises", "distinct_scripts_compared",
            "same_hash_other_template", "hash_with_leading_zero"]),
